@@ -221,6 +221,19 @@ Definition audited_writes : list (string * string) := [
   ("sanitize.singleQuoteState", "start")
 ].
 
+(* ---------------------------------------------------------------- size thresholds *)
+(* integer literals of two or more digits, per function.  The models treat every size alike: there is no
+   "fast path above N rows / N keys / N bytes" in them, so a literal that could be such a threshold must be audited.
+   The audited ones are radix and bit-size arguments of strconv. *)
+Definition audited_literals : list (string * string) := [
+  ("genql.LiteralExpr", "64");
+  ("genql.Reader", "64");
+  ("genql.ToFloat64", "64");
+  ("sanitize.Sanitize", "10");
+  ("sanitize.Sanitize", "64");
+  ("sanitize.placeholderState", "10")
+].
+
 Definition by_field (names : list string) (l : list (string * string)) : list (string * string) :=
   filter (fun p => existsb (String.eqb (snd p)) names) l.
 
